@@ -534,8 +534,8 @@ def importNsWitness : TSet :=
 
 /-- non-vacuity: it now renders the context value -/
 example : (match render importNsWitness 20 (s "/a") [(s "x", .obj (s "X"))] St.empty with
-    | .ok _ st => output st = s "X"
-    | .err _ _ => False) := by
+    | .ok _ st => decide (output st = s "X")
+    | .err _ _ => false) = true := by
   decide +kernel
 
 /-! ## `local` in the defs of a base template's `<%namespace>` (F-C07-3) -/
